@@ -623,7 +623,9 @@ impl RunResult {
 ///       6 = expect_explicit_explore + explore() right before the first spawn;
 ///       7 = region around main's ops except the first one; 8 = stop_exploring() as the very last call of the iteration;
 ///       11 = expect_explicit_explore, explore() only after the spawns (right before main's ops);
-///       9 = skip_branch(); explore() before main's ops; 10 = skip_branch(); stop_exploring(); explore() before main's ops
+///       9 = skip_branch(); explore() before main's ops; 10 = skip_branch(); stop_exploring(); explore() before main's ops;
+///       12 = stop_exploring(); skip_branch(); explore() before main's ops (skip_branch with exploration already off);
+///       13 = expect_explicit_explore, skip_branch(); explore() before main's ops (no decision of the run is ever explorable)
 pub fn run(p: &Prog, cfg: &Cfg) -> RunResult {
     struct Acc {
         outcomes: BTreeSet<Vec<u64>>,
@@ -662,7 +664,7 @@ pub fn run(p: &Prog, cfg: &Cfg) -> RunResult {
         if let Some(i) = cfg.checkpoint_interval {
             b.checkpoint_interval = i;
         }
-        if cfg.ctrl == 6 || cfg.ctrl == 11 {
+        if cfg.ctrl == 6 || cfg.ctrl == 11 || cfg.ctrl == 13 {
             b.expect_explicit_explore = true;
         }
         b.check(move || {
@@ -711,14 +713,18 @@ pub fn run(p: &Prog, cfg: &Cfg) -> RunResult {
                 // exploration starts here: the spawns above were scheduling decisions taken with exploration off
                 loom::explore();
             }
-            if ctrl == 4 || ctrl == 9 || ctrl == 10 {
+            if ctrl == 12 {
+                // skip_branch() inside a stop_exploring() region: the explore() below must stay without effect
+                loom::stop_exploring();
+            }
+            if ctrl == 4 || ctrl == 9 || ctrl == 10 || ctrl == 12 || ctrl == 13 {
                 loom::skip_branch();
             }
             // "exploration cannot be restarted by `explore`" after skip_branch (documented): both calls are no-ops here
             if ctrl == 10 {
                 loom::stop_exploring();
             }
-            if ctrl == 9 || ctrl == 10 {
+            if ctrl == 9 || ctrl == 10 || ctrl == 12 || ctrl == 13 {
                 loom::explore();
             }
             if ctrl == 7 && p2.threads[0].len() >= 2 {
